@@ -9,6 +9,7 @@ import (
 	"github.com/IrineSistiana/mosproxy/internal/limiter"
 	"github.com/IrineSistiana/mosproxy/internal/verifrt"
 	"github.com/quic-go/quic-go"
+	"golang.org/x/time/rate"
 )
 
 type vCharge struct {
@@ -126,5 +127,45 @@ func VerifH_C15_CallSites_S5() {
 		verifrt.Reach("quic")
 		verifrt.Assert(len(*charges) >= 1 && (*charges)[0].n == costQuicConn, "QUIC connection admission is charged")
 		verifrt.Assert((*charges)[0].addr == netip.AddrFrom4([4]byte{198, 51, 100, 9}), "QUIC connection admission charges the CLIENT's address, not the server's own")
+	}
+}
+
+// VerifH_C15_GlobalRefusalChargesNobody: both limits configured. Only the global budget is shared between clients:
+// when the shared budget refuses a request, no client's own bucket is debited for it (otherwise other subnets'
+// traffic would use up a client's private budget without anything having been admitted for it); the caller's
+// address and cost reach the client limiter unchanged, both limiters see the same instant, and a request is
+// admitted exactly when both admit it.
+func VerifH_C15_GlobalRefusalChargesNobody() {
+	var gCalls, cCalls []vCharge
+	var gNow, cNow []time.Time
+	gv, cv := verifrt.Bool("global.allows"), verifrt.Bool("client.allows")
+	verifrt.Redirect("(*golang.org/x/time/rate.Limiter).AllowN", func(l *rate.Limiter, now time.Time, n int) bool {
+		gCalls = append(gCalls, vCharge{netip.Addr{}, n})
+		gNow = append(gNow, now)
+		return gv
+	})
+	verifrt.Redirect("(*github.com/IrineSistiana/mosproxy/internal/limiter.ClientLimiter).AllowN",
+		func(cl *limiter.ClientLimiter, addr netip.Addr, now time.Time, n int) bool {
+			cCalls = append(cCalls, vCharge{addr, n})
+			cNow = append(cNow, now)
+			return cv
+		})
+	l := &resourceLimiter{global: new(rate.Limiter), cl: &limiter.ClientLimiter{}}
+	b := verifrt.BytesN("addr", 4)
+	addr := netip.AddrFrom4([4]byte{b[0], b[1], b[2], b[3]})
+	n := verifrt.IntRange("cost", 1, 100)
+	err := l.AllowN(addr, n)
+	verifrt.Reach("decided")
+	verifrt.Assert((err == nil) == (gv && cv), "admitted exactly when the shared budget and the client's own budget both admit")
+	verifrt.Assert(len(gCalls) <= 1 && len(cCalls) <= 1, "each budget is consulted at most once per request")
+	if !gv {
+		verifrt.Assert(len(cCalls) == 0, "a request refused by the shared budget is not charged to the client's own bucket")
+	}
+	for i, c := range cCalls {
+		verifrt.Assert(c.addr == addr && c.n == n, "the client limiter sees the caller's address and cost")
+		verifrt.Assert(len(gNow) == 0 || cNow[i] == gNow[0], "both budgets are charged at the same instant")
+	}
+	for _, c := range gCalls {
+		verifrt.Assert(c.n == n, "the shared budget is charged the same cost")
 	}
 }
